@@ -15,16 +15,17 @@ type trimWriter struct {
 	trim bool
 }
 
-// Write writes b to the current buffer. If the trim flag is set,
-// a prefix whitespace trim on b is performed before writing it to
-// the buffer and the trim flag is unset. If the trim flag was not
-// set, the current buffer is flushed before b is written.
-// Write only returns the bytes written to w during a flush.
+// Write flushes the current buffer and then buffers b. If the trim flag is set,
+// a prefix whitespace trim on b is performed first and the trim flag is unset.
+// The previous buffer is always flushed, so that a later TrimLeft only strips
+// whitespace of the text written last (the literal text adjacent to the tag).
+// Write only returns the bytes written to w during the flush.
 func (tw *trimWriter) Write(b []byte) (n int, err error) {
 	if tw.trim {
 		b = bytes.TrimLeftFunc(b, unicode.IsSpace)
 		tw.trim = false
-	} else if n, err = tw.Flush(); err != nil {
+	}
+	if n, err = tw.Flush(); err != nil {
 		return n, err
 	}
 	_, err = tw.buf.Write(b)
